@@ -713,8 +713,33 @@ func (s *ystring) Len() *Length         { return s.len }
 func (s *ystring) Pats() [][]Pattern    { return s.pats }
 func (s *ystring) PatHelps() [][]string { return s.pathelps }
 
+// RFC 6020 9.4: the legal characters of a string are tab, carriage return,
+// line feed and the legal characters of Unicode: no other control
+// characters, no surrogates, no non-characters (yang-char of RFC 7950).
+func isYangChar(r rune) bool {
+	switch {
+	case r == '\t' || r == '\n' || r == '\r':
+		return true
+	case r < 0x20:
+		return false
+	case r >= 0xD800 && r <= 0xDFFF:
+		return false
+	case r >= 0xFDD0 && r <= 0xFDEF:
+		return false
+	case r&0xFFFE == 0xFFFE || r > 0x10FFFF:
+		return false
+	}
+	return true
+}
+
 func (y *ystring) Validate(ctx ValidateCtx, path []string, s string) error {
 	var err error
+	for _, r := range s {
+		if !isYangChar(r) {
+			return newInvalidValueError(path,
+				fmt.Sprintf("Must not contain the character %U", r))
+		}
+	}
 	// RFC 6020 9.4.4: the length of a string is counted in characters
 	err = y.len.Validate(uint64(utf8.RuneCountInString(s)))
 	if err != nil {
